@@ -298,10 +298,38 @@ def one_corpus(workdir, ops):
     return res
 
 
-def corr_plan(tier, seed):
-    """(profile, seed, blocks) triples of a tier, derived from VERIF_SEED."""
+def changed_functions():
+    """Functions of /repo whose normalised text differs from the one the model was last validated against:
+    the regenerated digest table (Generated/Facts.lean, funcDigests) against the committed golden copy.
+    Not a verdict (a harmless rewrite changes a digest too): it only raises the budget of the search."""
+    def table(path):
+        out = {}
+        try:
+            for line in open(path):
+                m = re.match(r'\s*\("([^"]*)", "([^"]*)", "([^"]*)", "([0-9a-f]{64})"\)', line)
+                if m:
+                    out[(m.group(1), m.group(2), m.group(3))] = m.group(4)
+        except OSError:
+            pass
+        return out
+    cur = table(os.path.join(LEAN, 'Hub', 'Generated', 'Facts.lean'))
+    gold = table(os.path.join(LEAN, 'Hub', 'Generated.golden', 'Facts.lean'))
+    if not cur or not gold:
+        return []
+    ch = [k for k in cur if gold.get(k) != cur[k]] + [k for k in gold if k not in cur]
+    return sorted('%s:%s%s' % (f, (r + '.') if r else '', n) for f, r, n in ch)
+
+
+def corr_plan(tier, seed, boost=False):
+    """(profile, seed, blocks) triples of a tier, derived from VERIF_SEED. `boost`: some function differs from
+    the text the model was validated against - the quick tier then runs three times the histories."""
     profiles = ['lifecycle', 'money', 'quota', 'authz', 'gov', 'govdelay', 'extreme', 'genesis', 'sessions']
     plan = []
+    if boost and tier == 'quick':
+        for i, p in enumerate(profiles):
+            for j in range({'sessions': 14, 'genesis': 10, 'extreme': 8}.get(p, 6)):
+                plan.append((p, seed * 1000 + i * 10 + j if j < 10 else seed * 1000 + 500 + i * 10 + j, 120))
+        return plan
     # the session-settlement paths need several settled sessions on one subscription: more seeds there
     per = (lambda p: {'sessions': 6, 'genesis': 4, 'extreme': 3}.get(p, 2)) if tier == 'quick' else (lambda p: {'sessions': 24, 'genesis': 20}.get(p, 12))
     blocks = 90 if tier == 'quick' else 300
@@ -321,7 +349,8 @@ def run_corr(tier, seed, th):
             return json.load(open(summ))
         os.makedirs(cdir, exist_ok=True)
         from concurrent.futures import ThreadPoolExecutor
-        plan = corr_plan(tier, seed)
+        changed = changed_functions()
+        plan = corr_plan(tier, seed, boost=bool(changed))
         t0 = time.time()
         with ThreadPoolExecutor(max_workers=min(14, os.cpu_count() or 4)) as ex:
             results = list(ex.map(lambda a: one_history(cdir, a[1], a[0], a[2]), plan))
@@ -333,6 +362,8 @@ def run_corr(tier, seed, th):
         summary = summarize(results)
         summary['wall_s'] = time.time() - t0
         summary['dir'] = cdir
+        summary['changed_functions'] = changed
+        summary['boosted'] = bool(changed) and tier == 'quick'
         # keep only the files of failing histories
         for r in results:
             if not r.get('mismatches') and not r.get('gen_error') and not r.get('model_error') and not r.get('halts'):
@@ -771,6 +802,8 @@ def check_property(prop, tier, seed):
                            'mismatches_total': len(corr['mismatches']), 'mismatches_in_projection': len(rel),
                            'domain_events_observed_on_the_implementation': corr['totals'].get('domain', {}),
                            'monitors_of_property': P.get('monitors', []),
+                           'functions_changed_since_model_was_validated': corr.get('changed_functions', []),
+                           'search_budget_boosted': corr.get('boosted', False),
                            'implementation_states_loaded_and_monitored': corr['totals'].get('impl_states_monitored', 0),
                            'monitor_hits_total': len(corr['monitor_hits']),
                            'projection': P.get('sections', 'all')},
